@@ -56,7 +56,10 @@ def build_operand(o, i, seed, domain):
     if k == "npscalar":
         v = np.dtype(o["dtype"]).type(o.get("val", 2))
         return v, v
-    arr = layout(make_values(tuple(o["shape"]), o["dtype"], seed * 7 + i, domain), o.get("layout", "C"))
+    if "vals" in o:
+        arr = layout(np.asarray(o["vals"], dtype=np.float64).astype(o["dtype"]).reshape(tuple(o["shape"])), o.get("layout", "C"))
+    else:
+        arr = layout(make_values(tuple(o["shape"]), o["dtype"], seed * 7 + i, domain), o.get("layout", "C"))
     if k == "array":
         return arr.copy(order="K") if False else arr, arr
     kw = {}
@@ -82,7 +85,9 @@ def get_fn(ns, name):
 
 
 OPS = {"add": lambda a, b: a + b, "subtract": lambda a, b: a - b, "multiply": lambda a, b: a * b, "divide": lambda a, b: a / b,
-       "power": lambda a, b: a ** b, "matmul": lambda a, b: a @ b, "negative": lambda a: -a, "positive": lambda a: +a}
+       "power": lambda a, b: a ** b, "matmul": lambda a, b: a @ b, "negative": lambda a: -a, "positive": lambda a: +a,
+       "greater": lambda a, b: a > b, "less": lambda a, b: a < b, "greater_equal": lambda a, b: a >= b, "less_equal": lambda a, b: a <= b,
+       "equal": lambda a, b: a == b, "not_equal": lambda a, b: a != b, "floor_divide": lambda a, b: a // b}
 ROPS = {"add", "subtract", "multiply", "divide", "power", "matmul"}
 
 
